@@ -10,6 +10,7 @@ import ast
 from ..absval import Undecided, linform, truth_table, Lin
 from ..core import (AnalysisError, call_name, const, dotted, is_const, kwarg, local_defs,
                     norm, origin, parent_map, walk_local, arg)
+from ..pattern import pmatch, pfind
 from ..facts import (default_of, guards_of, list_literal_strs, mentions, recv_calls,
                      returns_of, unpack_of, enclosing_loops)
 
@@ -155,8 +156,7 @@ def reader_schema(rep, order):
         pm = parent_map(fi.node)
         for test, sense in guards_of(pm, c, fi.node):
             t = norm(test)
-            ok = sense and (t == "nodes_share in data" or t.startswith("len(node_attr_h)") or
-                            (isinstance(test, ast.Compare) and "len(" in t and t.endswith("> 0")))
+            ok = sense and (pmatch("nodes_share in $d", test) is not None or pmatch("len($x) > 0", test) is not None)
             rep.ob("O1.4", "UNION", fi, True if ok else False, f"{gname_}.add_node under `{t}`",
                    "node restoration is filtered only by key presence")
     rep.need("R3a", n_calls, 2, "add_node calls in its_decompose")
@@ -357,7 +357,7 @@ def unions(rep):
         rep.ob("O1.4", "UNION", fi, not filt, f"{what} union filters {filt}", f"no element of the {what} union is filtered out")
         for c in [c for c in walk_local(lp) if isinstance(c, ast.Call) and call_name(c) == meth]:
             gs = [(t, s) for t, s in guards_of(pm, c, lp)]
-            allowed = all((norm(t) in ("n not in ITS",) and s) for t, s in gs) if what == "nodes" else not gs
+            allowed = all((pmatch("$n not in $its", t, {"n": norm(lp.target)}) is not None and s) for t, s in gs) if what == "nodes" else not gs
             rep.ob("O1.4", "UNION", fi, allowed, f"{norm(c.func)} under {[norm(t) for t, _ in gs]}",
                    f"every member of the {what} union is added to the ITS")
 
